@@ -170,6 +170,21 @@ CLAIMS["C34"] = ("other", "table agreement: name-lookup reader vs X-macro extent
                  "with the same function and modulus and probe compatibly (-1 sentinel); lookups index only inside their tables. Probe "
                  "termination for adversarial tables is not decided.", "Trusts clang's AST/preprocessor.", "DESIGN.md 4/C34")
 
+CLAIMS["C37"] = ("other", "table-vs-layout check of the generated attribute tables against the clang struct layout, dominance of element parsers "
+                 "by the schema check, interprocedural exception-type flow to the extern-C boundary, error-message path rule",
+                 "Decides for every document: each of the 567 generated attribute rows writes a field whose type and extent admit the row's "
+                 "kind and length (memory safety of table-driven parsing); every element parser is reached only after schema.Check accepted; "
+                 "no exception type thrown in the xml/user sources can escape mj_loadXML / mj_parseXMLString (1504 functions, handlers "
+                 "modelled); every NULL return of the API chain is preceded by a non-empty error message. Crash-freedom inside tinyxml2 and "
+                 "the schema automaton's accept/reject decisions are not decided.",
+                 "Trusts clang's AST; third-party headers are declaration-only stubs.", "DESIGN.md 4/C37")
+CLAIMS["C51"] = ("other", "must-pass clip rules, sibling/slot-table agreement, who-writes sets and index-dimension provenance on the plugins' C++ AST",
+                 "Decides: the PID integral is clipped to +-imax on every path in both sibling computations and the setpoint slew clip is "
+                 "applied whenever configured; state slot order/count agree among ActDim/GetState/ActDot; each plugin callback writes only "
+                 "its own mjData slices (allowed sets listed with reasons); every index into nu/nout/na-dimensioned arrays comes from the "
+                 "matching address array. The PID arithmetic and the cable's zero force at rest are not decided.",
+                 "Trusts clang's AST and the X-macro row dimensions.", "DESIGN.md 4/C51")
+
 NOT_APPLICABLE = {
     "C06": "numerical identities of M, LTDL and RNE over real-valued runtime data; no clause is visible in code shape",
     "C07": "'J equals the derivative of position' and proper-rotation claims are numerical; joint-type exhaustiveness is decided under C05",
